@@ -3,7 +3,7 @@
 src_dir holds patch.diff, demo.py, note.md (from an independent sub-agent). Confirms: patch applies to /repo HEAD,
 the 87 tests pass with it, demo fails with it and passes without; runs checks against it; writes /verif/seeded/<seed_id>/."""
 import json, os, shutil, subprocess, sys
-W = "/root/scratch/mut"
+W = os.environ.get("W", "/root/scratch/mut")
 V = "/verif"
 ALL = ["C%02d" % i for i in range(1, 21)]
 
